@@ -26,6 +26,11 @@ CLS = "ParserAArch64"
 
 
 def run(ctx):
+    C.require_locals(ctx, ctx.func('ParserAArch64.process_memory_address'), ['memory_address', 'offset', 'base', 'index', 'scale', 'valid_shift_ops'])
+    C.require_locals(ctx, ctx.func('ParserAArch64.parse_line'), ['result'])
+    C.require_locals(ctx, ctx.func('ParserAArch64.parse_instruction'), ['result', 'operands'])
+    C.require_locals(ctx, ctx.func('ParserAArch64.resolve_range_list'), ['operand', 'index'])
+    C.require_locals(ctx, ctx.func('ParserAArch64.process_immediate'), ['immediate'])
     gr = Grammar(ctx.repo, CLS)
     ctx.touch(gr.func)
     ctx.extra["grammar_variables"] = len(gr.order)
